@@ -321,13 +321,24 @@ func (p *shParser) parseCommand() *Cmd {
 				unsup("expected then: %s", p.around())
 			}
 			body := p.parseList([]string{"elif", "else", "fi"})
+			// the shell grammar has no empty compound lists
+			if len(cond) == 0 {
+				unsup("syntax error: empty condition list before then: %s", p.around())
+			}
+			if len(body) == 0 {
+				unsup("syntax error: empty list after then: %s", p.around())
+			}
 			c.Conds = append(c.Conds, cond)
 			c.Bodies = append(c.Bodies, body)
 			if p.eatBare("elif") {
 				continue
 			}
 			if p.eatBare("else") {
-				c.Bodies = append(c.Bodies, p.parseList([]string{"fi"}))
+				eb := p.parseList([]string{"fi"})
+				if len(eb) == 0 {
+					unsup("syntax error: empty list after else: %s", p.around())
+				}
+				c.Bodies = append(c.Bodies, eb)
 				c.HasElse = true
 			}
 			if !p.eatBare("fi") {
@@ -345,6 +356,9 @@ func (p *shParser) parseCommand() *Cmd {
 		c.Bodies = [][]*Cmd{p.parseList([]string{"done"})}
 		if !p.eatBare("done") {
 			unsup("expected done: %s", p.around())
+		}
+		if len(c.Conds[0]) == 0 || len(c.Bodies[0]) == 0 {
+			unsup("syntax error: empty list in a while loop: %s", p.around())
 		}
 		return c
 	case "for":
@@ -370,6 +384,9 @@ func (p *shParser) parseCommand() *Cmd {
 		if !p.eatBare("done") {
 			unsup("expected done")
 		}
+		if len(c.Bodies[0]) == 0 {
+			unsup("syntax error: empty for body: %s", p.around())
+		}
 		return c
 	case "{":
 		p.i++
@@ -377,6 +394,9 @@ func (p *shParser) parseCommand() *Cmd {
 		c.Bodies = [][]*Cmd{p.parseList([]string{"}"})}
 		if !p.eatBare("}") {
 			unsup("expected }")
+		}
+		if len(c.Bodies[0]) == 0 {
+			unsup("syntax error: empty group: %s", p.around())
 		}
 		return c
 	}
@@ -403,6 +423,9 @@ func (p *shParser) parseCommand() *Cmd {
 			c.Bodies = [][]*Cmd{p.parseList([]string{"}"})}
 			if !p.eatBare("}") {
 				unsup("expected } closing function %s: %s", name, p.around())
+			}
+			if len(c.Bodies[0]) == 0 {
+				unsup("syntax error: empty body of function %s", name)
 			}
 			return c
 		}
